@@ -274,7 +274,7 @@ def fuelOf (_g : TGrammar) : Nat := 4000
 def handleInst (srcToks realToks : List String) : Option String := do
   let (src, rest) ← parseSrc srcToks
   if !rest.isEmpty then none
-  let (st, out) := compile src (fuelOf src)
+  let (st, out, cert) := compile src (fuelOf src)
   match realToks with
   | ["err"] => pure (if st == .err then "match" else s!"differ mirror={showStatus st} real=err")
   | ["fatal"] => pure (if st == .fatal then "match" else s!"differ mirror={showStatus st} real=fatal")
@@ -284,7 +284,9 @@ def handleInst (srcToks realToks : List String) : Option String := do
     | .ok, some (_, g) =>
       let a := canon g
       let b := canon real
-      pure (if a == b then "match" else s!"differ mirror=[{a}] real=[{b}]")
+      pure (if a != b then s!"differ mirror=[{a}] real=[{b}]"
+            else if !cert then "differ certificate of the lookahead propagation does not hold (hypothesis of C14_propagate_sound)"
+            else "match")
     | _, _ => pure s!"differ mirror={showStatus st} real=ok"
 
 def firstDiff (a b : List Word) : Option (Word × Bool) :=
